@@ -21,12 +21,14 @@ type mapDB
   monitor RWMutex level 2 guards
 
 func syncedKVMap.has
+  opt twophase
   opt sequential
   requires s != nil && s.m != nil && unlocked(s.RWMutex)
   ensures r0 <==> has(s.m, str(key))
   ensures unlocked(s.RWMutex)
 
 func syncedKVMap.get
+  opt twophase
   opt sequential
   requires s != nil && s.m != nil && unlocked(s.RWMutex)
   ensures r1 <==> has(s.m, str(key))
@@ -34,6 +36,7 @@ func syncedKVMap.get
   ensures unlocked(s.RWMutex)
 
 func syncedKVMap.set
+  opt twophase
   opt sequential
   requires s != nil && s.m != nil && unlocked(s.RWMutex)
   modifies map(s.m)
@@ -42,6 +45,7 @@ func syncedKVMap.set
   ensures unlocked(s.RWMutex)
 
 func syncedKVMap.delete
+  opt twophase
   opt sequential
   requires s != nil && s.m != nil && unlocked(s.RWMutex)
   modifies map(s.m)
@@ -52,6 +56,7 @@ func syncedKVMap.delete
 -- removes exactly the keys that carry the prefix (map-range loop: every key still in the map when the
 -- loop ends has been visited, and visited keys with the prefix were deleted)
 func syncedKVMap.deletePrefix
+  opt twophase
   opt sequential
   requires s != nil && s.m != nil && unlocked(s.RWMutex)
   modifies map(s.m)
@@ -68,6 +73,7 @@ func NewMapDB
   ensures r0 != nil
 
 func mapDB.Get
+  opt twophase
   opt sequential
   requires s != nil && s.m != nil && s.m.m != nil && s.closed != nil && unlocked(s.RWMutex) && unlocked(s.m.RWMutex)
   ensures aload(s.closed) ==> r1 == kvstore.ErrStoreClosed
@@ -76,6 +82,7 @@ func mapDB.Get
   ensures unlocked(s.RWMutex) && unlocked(s.m.RWMutex)
 
 func mapDB.Has
+  opt twophase
   opt sequential
   requires s != nil && s.m != nil && s.m.m != nil && s.closed != nil && unlocked(s.RWMutex) && unlocked(s.m.RWMutex)
   ensures aload(s.closed) ==> r1 == kvstore.ErrStoreClosed && !r0
@@ -100,6 +107,7 @@ func mapDB.delete
   ensures unlocked(s.m.RWMutex)
 
 func mapDB.Set
+  opt twophase
   opt sequential
   requires s != nil && s.m != nil && s.m.m != nil && s.closed != nil && unlocked(s.RWMutex) && unlocked(s.m.RWMutex)
   modifies map(s.m.m)
@@ -109,6 +117,7 @@ func mapDB.Set
   ensures unlocked(s.RWMutex) && unlocked(s.m.RWMutex)
 
 func mapDB.Delete
+  opt twophase
   opt sequential
   requires s != nil && s.m != nil && s.m.m != nil && s.closed != nil && unlocked(s.RWMutex) && unlocked(s.m.RWMutex)
   modifies map(s.m.m)
@@ -118,6 +127,7 @@ func mapDB.Delete
   ensures unlocked(s.RWMutex) && unlocked(s.m.RWMutex)
 
 func mapDB.DeletePrefix
+  opt twophase
   opt sequential
   requires s != nil && s.m != nil && s.m.m != nil && s.closed != nil && unlocked(s.RWMutex) && unlocked(s.m.RWMutex)
   modifies map(s.m.m)
@@ -127,6 +137,7 @@ func mapDB.DeletePrefix
   ensures unlocked(s.RWMutex) && unlocked(s.m.RWMutex)
 
 func mapDB.Clear
+  opt twophase
   opt sequential
   requires s != nil && s.m != nil && s.m.m != nil && s.closed != nil && unlocked(s.RWMutex) && unlocked(s.m.RWMutex)
   modifies map(s.m.m)
@@ -217,8 +228,10 @@ func batchedMutations.Commit
 -- the consumer runs after the lock was released and receives keys with the realm stripped (in bounds,
 -- because every snapshot key carries cat(realm, prefix)). The order of delivery is utils.SortSlice's (assumed).
 func syncedKVMap.iterateKeys
+  opt twophase
   requires s != nil && s.m != nil && unlocked(s.RWMutex)
   callback consume(k) (cont)
+    opt nolocks
     opt nolocks
   modifies monitor(s)
   loop 1 invariant rheld(s.RWMutex) && copiedElements != nil && fresh(copiedElements) && (forall k Str :: has(copiedElements, k) ==> hasprefix(k, prefix))
@@ -227,8 +240,10 @@ func syncedKVMap.iterateKeys
   ensures unlocked(s.RWMutex)
 
 func syncedKVMap.iterate
+  opt twophase
   requires s != nil && s.m != nil && unlocked(s.RWMutex)
   callback consume(k, v) (cont)
+    opt nolocks
     opt nolocks
   modifies monitor(s)
   loop 1 invariant rheld(s.RWMutex) && copiedElements != nil && fresh(copiedElements) && (forall k Str :: has(copiedElements, k) ==> hasprefix(k, prefix))
@@ -237,17 +252,21 @@ func syncedKVMap.iterate
   ensures unlocked(s.RWMutex)
 
 func mapDB.Iterate
+  opt twophase
   opt sequential
   requires s != nil && s.m != nil && s.m.m != nil && s.closed != nil && unlocked(s.RWMutex) && unlocked(s.m.RWMutex)
   callback consumerFunc(k, v) (cont)
+    opt nolocks
   modifies monitor(s.m)
   ensures aload(s.closed) <==> r0 == kvstore.ErrStoreClosed
   ensures !aload(s.closed) ==> r0 == nil
 
 func mapDB.IterateKeys
+  opt twophase
   opt sequential
   requires s != nil && s.m != nil && s.m.m != nil && s.closed != nil && unlocked(s.RWMutex) && unlocked(s.m.RWMutex)
   callback consumerFunc(k) (cont)
+    opt nolocks
   modifies monitor(s.m)
   ensures aload(s.closed) <==> r0 == kvstore.ErrStoreClosed
   ensures !aload(s.closed) ==> r0 == nil
